@@ -123,6 +123,9 @@ class Report:
         t0 = time.time()
         mod = self.mod
         units = list(mod.units(self.tier)) if hasattr(mod, 'units') else []
+        if getattr(a, 'only', None):
+            units = [u for u in units if a.only in u.name]
+            self.selftest = True
         lemmas = list(mod.lemmas(self.tier)) if hasattr(mod, 'lemmas') else []
         if not units and not lemmas:
             return
